@@ -224,6 +224,72 @@ func (t Task) RunRaw() (obs string, raw string) {
 			valid = satisfies(t.F, mm)
 		}
 		return fmt.Sprintf("sat=%v model-valid=%v", m != nil, valid), fmt.Sprintf("bf=%v sat=%v", keys, m != nil)
+	case "bf-dnf":
+		// a formula that is not in CNF shape (disjunction of conjunctions, plus an exactly-one group of
+		// 5 names): the translation needs auxiliary variables
+		var cubes []bf.Formula
+		for _, c := range t.F {
+			var ls []bf.Formula
+			for _, l := range c {
+				if l > 0 {
+					ls = append(ls, bf.Var(fmt.Sprintf("v%d", l)))
+				} else {
+					ls = append(ls, bf.Not(bf.Var(fmt.Sprintf("v%d", -l))))
+				}
+			}
+			cubes = append(cubes, bf.And(ls...))
+		}
+		f := bf.And(bf.Or(cubes...), bf.Unique("u1", "u2", "u3", "u4", "u5"))
+		m := bf.Solve(f)
+		// reference: satisfiable iff some cube has no complementary pair
+		sat := false
+		for _, c := range t.F {
+			ok := true
+			seen := map[int]bool{}
+			for _, l := range c {
+				if seen[-l] {
+					ok = false
+				}
+				seen[l] = true
+			}
+			if ok {
+				sat = true
+			}
+		}
+		valid := true
+		if m != nil {
+			valid = false
+			for _, c := range t.F {
+				all := true
+				for _, l := range c {
+					v := l
+					if v < 0 {
+						v = -v
+					}
+					if m[fmt.Sprintf("v%d", v)] != (l > 0) {
+						all = false
+					}
+				}
+				if all {
+					valid = true
+				}
+			}
+			nu := 0
+			for _, u := range []string{"u1", "u2", "u3", "u4", "u5"} {
+				if m[u] {
+					nu++
+				}
+			}
+			if nu != 1 {
+				valid = false
+			}
+		}
+		keys := make([]string, 0, len(m))
+		for k, v := range m {
+			keys = append(keys, fmt.Sprintf("%s=%v", k, v))
+		}
+		sort.Strings(keys)
+		return fmt.Sprintf("sat=%v expected=%v model-valid=%v", m != nil, sat, valid), fmt.Sprint(keys)
 	}
 	return "unknown task", ""
 }
